@@ -65,10 +65,14 @@ package netpoll
 //@   modifies m.numLoops, m.status
 
 //@ func openPoll
-//@   trusted opens an epoll instance and its wake-up descriptor (verified separately under C15: openDefaultPoll)
+//@   property C15 C18
 //@   results p err
-//@   ensures (err == nil) == (p != nil)
-//@   ensures p != nil ==> fresh(p#val) && !prun[p#val] && !pclosed[p#val]
+//@   note on failure the nil *defaultPoll is returned inside a non-nil Poll interface: callers must test err, not p (Run does)
+//@   ensures err == nil ==> p != nil && p#val != 0 && fresh(p#val) && !prun[p#val] && !pclosed[p#val]
+//@   ensures err != nil ==> p#val == 0
+//@   note ghost maps are false at an object that did not exist before (definitional)
+//@   ghost after call openDefaultPoll#1: assume result0 == nil || (!prun[result0] && !pclosed[result0])
+//@   modifies fdopen, closecnt, FDOperator.state
 
 // pollers started / stopped again by the current call of Run (ghost)
 //@ ghost global runOpened int
